@@ -43,7 +43,7 @@ def sig_of_target(t: Target, scope: Fn, obs: str, root: Fn) -> str:
             return "pass:" + EV[t.attr]
         if t.attr in EV:
             return "pass:" + EV[t.attr].lower() + "@" + t.obj
-        return f"bound:{t.obj}.{t.attr}"
+        return f"bound:{_describe_local(scope, t.obj)}.{t.attr}"
     if t.kind == "fn":
         ps = paths(t.fn, event_fn(obs, root), inline_depth=3)
         seqs = set()
@@ -54,6 +54,18 @@ def sig_of_target(t: Target, scope: Fn, obs: str, root: Fn) -> str:
     if t.kind == "unknown" and isinstance(t.expr, ast.Name) and t.expr.id == obs:
         return "observer"
     return "?"
+
+
+def _describe_local(scope: Fn, name: str) -> str:
+    """A local is named by its (single) initialiser, not by its identifier: `s = set()` -> `set()`."""
+    o = scope.owner(name) if "." not in name else None
+    if o is None or not o.is_func:
+        return name
+    inits = [n.value for n in o.direct_nodes() if isinstance(n, (ast.Assign, ast.AnnAssign)) and n.value is not None
+             and any(isinstance(t, ast.Name) and t.id == name for t in (n.targets if isinstance(n, ast.Assign) else [n.target]))]
+    if len(inits) == 1:
+        return short(inits[0], 30)
+    return name
 
 
 def source_names(root: Fn) -> List[str]:
